@@ -12,7 +12,7 @@
                   i-1 receives the type of header i for every i >= 1 (guard evaluated over the index); tables: C03.R2.
  R4 padding       the Ethernet / 802.1Q minimum-frame padding is zero-filled after skipping exactly the inner layer.
 """
-from vlib import facts, cfg, ieval, streamfx as sx
+from vlib import facts, cfg, cond, ieval, streamfx as sx
 from vlib.facts import strip
 
 PID = "C05"
@@ -732,6 +732,33 @@ def r3(db, rep):
         t = " ".join(facts.expr_str(x) for x in facts.fn_nodes(last[0]) if x["k"] in ("CXXMemberCallExpr", "BinaryOperator"))
         last_ok = "ext_headers_.back().option(value)" in t.replace("this->", "") and "header_.next_header = value" in t
     any_first = any(member_store(f, x) and member_store(f, x)[0] == "next_header" for x in facts.fn_nodes(f))
+    # with no inner layer the chain must END: the tag stored then is not the type of an extension header that is not there
+    # (0 = hop-by-hop makes every parser read whatever follows - e.g. Ethernet padding - as an extension header)
+    from vlib import ieval as _ie
+    ieh = [h for h in db.fns_named("Tins::IPv6::is_extension_header") if h.get("body")]
+    en6 = db.enums.get("Tins::IPv6::ExtensionHeader") or {}
+    nonext = [e_["v"] for e_ in en6.get("enumerators", []) if e_["name"] == "NO_NEXT_HEADER"]
+    g6 = cfg.FnCFG(f)
+    for x in facts.fn_nodes(f):
+        if x["k"] == "CXXMemberCallExpr" and x.get("cname") == "set_last_next_header" and len(x["c"]) == 2 and facts.cval(x["c"][1]) is not None:
+            gfs = cond.guards_facts(g6, g6.pos(x)) if g6.pos(x) else []
+            if any(op == "false" and "inner_pdu" in facts.expr_str(l) for op, l, r_ in gfs):
+                k_ = int(facts.cval(x["c"][1]))
+                is_ext = None
+                if ieh:
+                    try:
+                        is_ext = bool(_ie.run_body(ieh[0], ieh[0]["body"], {ieh[0]["params"][0]["var"]: k_, "__db__": db}))
+                    except _ie.Unknown:
+                        is_ext = None
+                key2 = "IPv6:no-payload-tag"
+                if is_ext and (not nonext or k_ != nonext[0]):
+                    rep.violation("R3-tags", key2, facts.loc(f, x),
+                                  "with no inner layer the serialiser stores next header %d, the type of an EXTENSION header, although nothing "
+                                  "follows: a parser reads the bytes behind the IPv6 header (the zero padding of a short Ethernet frame) as "
+                                  "that extension header and rejects the frame - libtins' own parser included; `No Next Header` is %s"
+                                  % (k_, nonext[0] if nonext else 59))
+                elif is_ext is not None:
+                    rep.ok("R3-tags", key2, facts.loc(f, x), "no inner layer -> next header %d (the chain ends)" % k_)
     wrong_end = False
     if last and not last_ok:
         # the upper-layer tag written into another element than the LAST header (front(), begin(), [0])
